@@ -204,4 +204,10 @@ Example C05_partial_hypotheses_satisfiable :
             (userY (JStr "Droid") (JStr "1") JNull) = false /\
     accepts 11 cls (schema_enums SY) (AClass (pascal_s "GetPeople"))
             (userY (JStr "User") (JStr "1") (JArr [])) = false.
-Proof. do 3 eexists. vm_compute. repeat split. Qed.
+Proof.
+  do 3 eexists.
+  split; [reflexivity|].
+  split; [vm_compute; reflexivity|].      (* instantiates own, pub' *)
+  split; [vm_compute; reflexivity|].      (* instantiates cls *)
+  vm_compute. repeat split.
+Qed.
